@@ -1,7 +1,7 @@
 (* C16 — the invariant test the correspondence check runs on the implementation's dumped tree
    (Check/C16.v: invb) is sound for the invariant the query theorems assume (OctreeProofs.inv). *)
 From PF Require Import Check.C16 Trees.OctreeProofs.
-From Coq Require Import Lia.
+From Coq Require Import Lqa Lia Qfield.
 Open Scope Z_scope.
 
 Lemma box_subb_sub a b : box_subb a b = true -> box_sub a b.
@@ -19,3 +19,61 @@ Proof.
   - clear H1. induction IH as [|c ch Hc _ IHch]; [constructor|].
     apply andb_true_iff in H2. destruct H2 as [Hc' Hch]. constructor; [apply Hc, Hc' | apply IHch, Hch].
 Qed.
+
+(* ---------- the direct oracle's ray/box formulation ---------- *)
+Open Scope Q_scope.
+Lemma axis_iv_geo o d bl bh :
+  match axis_iv o d bl bh with
+  | Some iv => forall r t, in_range (narrow r iv) t <-> in_range r t /\ axis_in o d bl bh t
+  | None => forall t, ~ axis_in o d bl bh t
+  end.
+Proof.
+  unfold axis_iv, axis_in. destruct (Qcompare d 0) eqn:C.
+  - apply Qeq_alt in C. apply Qeq_bool_iff in C. rewrite C.
+    destruct (Qle_bool bl o && Qle_bool o bh)%bool eqn:E.
+    + apply andb_true_iff in E. destruct E as [E1 E2]. qb. intros r t. cbn [narrow]. tauto.
+    + intros t [A B]. apply andb_false_iff in E. destruct E as [E|E]; qb; lra.
+  - apply Qlt_alt in C. assert (Hd : ~ d == 0) by lra. rewrite (proj2 (qeqb_false d) Hd).
+    intros r t. cbn [narrow]. unfold in_range. cbn [fst snd].
+    destruct (div_lt_neg d (bl - o) t C) as [L1 L2]. destruct (div_lt_neg d (bh - o) t C) as [H1 H2].
+    generalize dependent ((bl - o) / d). generalize dependent ((bh - o) / d). intros a1 H1 H2 a0 L1 L2.
+    unfold qmax. destruct (Qltb (fst r) a1) eqn:X, (Qltb a0 (snd r)) eqn:Y; qb; split; intros; repeat split; lra.
+  - apply Qgt_alt in C. assert (Hd : ~ d == 0) by lra. rewrite (proj2 (qeqb_false d) Hd).
+    intros r t. cbn [narrow]. unfold in_range. cbn [fst snd].
+    destruct (div_lt_pos d (bl - o) t C) as [L1 L2]. destruct (div_lt_pos d (bh - o) t C) as [H1 H2].
+    generalize dependent ((bl - o) / d). generalize dependent ((bh - o) / d). intros a1 H1 H2 a0 L1 L2.
+    unfold qmax. destruct (Qltb (fst r) a0) eqn:X, (Qltb a1 (snd r)) eqn:Y; qb; split; intros; repeat split; lra.
+Qed.
+
+(* the direct oracle's formulation (all three intervals intersected at once) means the same thing *)
+Theorem ray_spec_geo b ry r : ray_spec b ry r = true <-> ray_crosses b ry r.
+Proof.
+  unfold ray_spec, ray_crosses. destruct ry as [o [[dx dy] dz]].
+  pose proof (axis_iv_geo (q4 (px o)) dx (q4 (px (bmin b)) - keps) (q4 (px (bmax b)) + keps)) as G1.
+  pose proof (axis_iv_geo (q4 (py o)) dy (q4 (py (bmin b)) - keps) (q4 (py (bmax b)) + keps)) as G2.
+  pose proof (axis_iv_geo (q4 (pz o)) dz (q4 (pz (bmin b)) - keps) (q4 (pz (bmax b)) + keps)) as G3.
+  destruct (axis_iv (q4 (px o)) dx _ _) as [ix|].
+  2:{ split; [discriminate|]. intros (t & _ & A & _). destruct (G1 t A). }
+  destruct (axis_iv (q4 (py o)) dy _ _) as [iy|].
+  2:{ split; [discriminate|]. intros (t & _ & _ & A & _). destruct (G2 t A). }
+  destruct (axis_iv (q4 (pz o)) dz _ _) as [iz|].
+  2:{ split; [discriminate|]. intros (t & _ & _ & _ & A). destruct (G3 t A). }
+  set (r' := narrow (narrow (narrow r ix) iy) iz).
+  assert (E : forall t, in_range r' t <-> in_range r t /\
+            axis_in (q4 (px o)) dx (q4 (px (bmin b)) - keps) (q4 (px (bmax b)) + keps) t /\
+            axis_in (q4 (py o)) dy (q4 (py (bmin b)) - keps) (q4 (py (bmax b)) + keps) t /\
+            axis_in (q4 (pz o)) dz (q4 (pz (bmin b)) - keps) (q4 (pz (bmax b)) + keps) t).
+  { intros t. unfold r'. rewrite G3, G2, G1. tauto. }
+  split.
+  - intros H. apply Qltb_true in H. exists ((fst r' + snd r') / 2). apply E. apply range_midpoint, H.
+  - intros (t & H). apply E in H. apply Qltb_true. unfold in_range in H. lra.
+Qed.
+
+Theorem ray_spec_eq_slab b ry r : wf_box b -> ray_spec b ry r = slab b ry r.
+Proof.
+  intros W. destruct (slab b ry r) eqn:S.
+  - apply ray_spec_geo, (slab_geo b ry r W), S.
+  - destruct (ray_spec b ry r) eqn:R; [|reflexivity].
+    apply ray_spec_geo, (slab_geo b ry r W) in R. congruence.
+Qed.
+Open Scope Z_scope.
